@@ -21,6 +21,9 @@ type txFile struct {
 	Directive string `json:"directive,omitempty"`
 	// Lead: an ordinary comment line stands in front of the directive (same comment group: still the file header)
 	Lead bool `json:"lead_comment,omitempty"`
+	// Sep: what stands on the line that separates the header from the statements ("" = an empty line; blanks or a
+	// tab: a line that only looks empty)
+	Sep string `json:"separator_line,omitempty"`
 }
 
 type txCase struct {
@@ -114,7 +117,7 @@ func (c *txCase) dirFiles(fixAll bool) []dirFile {
 			if tf.Lead {
 				b.WriteString("-- written by hand\n")
 			}
-			b.WriteString("-- atlas:txmode " + tf.Directive + "\n\n")
+			b.WriteString("-- atlas:txmode " + tf.Directive + "\n" + tf.Sep + "\n")
 		}
 		for i, ok := range tf.Ok {
 			b.WriteString(c.stmtSQL(f, i, ok || fixAll) + "\n")
